@@ -415,7 +415,16 @@ class World:
                 self.self_controlled()
                 return v
 
+        from frappy.errors import CommunicationFailedError
+        faults = set()       # controllers whose hardware refuses to be switched off, once
+
         class Ctl(self.HasOutputModule, C.Writable):
+            def set_control_active(self, active):
+                if not active and self.name in faults:
+                    faults.discard(self.name)
+                    raise CommunicationFailedError('the controller does not answer')
+                super().set_control_active(active)
+
             def write_target(self, v):
                 self.activate_control()
                 if self.output_module:
@@ -459,8 +468,40 @@ class World:
             via = rng.choice(['module', 'wire'])
             if who in ctls and rng.random() < 0.25:
                 via = 'regulate'       # the controller's driver pushes an output value, whether it is in control or not
-            case['ops'].append([who.name, via])
+            failing = None
+            if via != 'regulate' and who in ctls and prev_active.get(ci) and prev_active[ci] not in (who.name, 'self') and rng.random() < 0.3:
+                # the controller in charge fails to switch off (a communication error) while another one takes over: the
+                # take-over fails as a whole - nothing has changed
+                failing = prev_active[ci]
+                faults.add(failing)
+            case['ops'].append([who.name, via] + ([f'{failing} fails to switch off'] if failing else []))
             before = [state(c) for c in chains]
+            if failing:
+                r.count('control_takeovers_with_a_failing_switch_off')
+                try:
+                    if via == 'module':
+                        who.write_target(float(step))
+                    else:
+                        node.dispatcher.handle_request(conn, ('change', f'{who.name}:target', float(step)))
+                    outcome = 'ok'
+                except self.SECoPError as e:
+                    outcome = type(e).__name__
+                except Exception as e:
+                    r.violation('C18/control/raises', f'{who.name}.write_target raised {type(e).__name__}: {e}'[:200], case)
+                    break
+                faults.discard(failing)
+                after = [state(c) for c in chains]
+                o_name, act = after[ci]
+                if outcome != 'ok' and after != before:
+                    r.violation('C18/control/failed-take-over-changes-state',
+                                f'{who.name} could not take over ({outcome}: {failing} did not switch off): state went from {before[ci]} to {after[ci]}', case)
+                    break
+                if len(act) > 1 or (act and o_name != act[0]):
+                    r.violation('C18/control/output-names-wrong-controller', f'after the take-over attempt of {who.name}: controlled_by = {o_name}, active = {list(act)}', case)
+                    break
+                if outcome == 'ok':
+                    prev_active[ci] = who.name
+                continue
             try:
                 if via == 'regulate':
                     out.update_target(who.name, float(step))
